@@ -255,6 +255,23 @@ func runCase(t *rapid.T) {
 	tipHeight := n.Tip().Header.Height
 	for i := 0; i < deletable; i++ {
 		tip := n.Tip()
+		if rapid.IntRange(0, 5).Draw(t, "revertRefused") == 0 {
+			// the application refuses to revert once: the removal fails and must leave everything as it was (a removal is
+			// one step: nothing of it may be applied when it does not happen), and it can be retried
+			pre, preLook := n.Dump(), snapshotLookups(n)
+			n.ABI.FailNextRevert(1)
+			if err := n.Exec.VerifDeleteBlock(tip, saveTemp); err == nil {
+				t.Fatalf("delete of tip %d succeeded although the application refused to revert\nhistory: %v", tip.Header.Height, hist)
+			}
+			if d := diffDumps(filterT(pre, 0, -1, true), filterT(n.Dump(), 0, -1, true)); d != "" {
+				t.Fatalf("refused removal of block h=%d changed the database:\n%s\nhistory:\n%s", tip.Header.Height, d, strings.Join(hist, "\n"))
+			}
+			if l := snapshotLookups(n); l != preLook {
+				t.Fatalf("refused removal changed the lookups:\nbefore: %s\nafter:  %s\nhistory:\n%s", preLook, l, strings.Join(hist, "\n"))
+			}
+			hist = append(hist, fmt.Sprintf("DELETE h=%d refused by the application (nothing changed)", tip.Header.Height))
+			caseFlags["revert-refused"] = true
+		}
 		if err := n.Exec.VerifDeleteBlock(tip, saveTemp); err != nil {
 			t.Fatalf("delete of tip %d (finalized %d) failed: %v\nhistory: %v", tip.Header.Height, fReached, err, hist)
 		}
